@@ -71,6 +71,11 @@ func (e JSchemaError) Filename() string {
 	return e.file.Name()
 }
 
+// File returns the file the error points into (nil if it has none yet).
+func (e JSchemaError) File() *fs.File {
+	return e.file
+}
+
 func (e JSchemaError) Message() string {
 	return e.message
 }
